@@ -424,13 +424,19 @@ pub fn run(tier: Tier) -> Report {
     // of the following picture, since the probe reads the bits right behind the start code).
     {
         let mode = Mode::StdCustom;
-        let mut work: Vec<(u16, u16, usize, usize, u8, u8)> = vec![];
+        // (the early-ended picture is an I or a P picture and carries 0, 1 or 2 stuffing codewords
+        // behind its last transmitted macroblock: the probe then has to look past them)
+        let mut work: Vec<(u16, u16, usize, usize, u8, u8, u8, usize)> = vec![];
         for &(w, h, total) in &[(32u16, 16u16, 2usize), (48, 32, 6)] {
             for sent in 0..total {
                 for pei in 0..8usize {
                     for next_type in [0u8, 1] {
                         for next_tr in [0u8, 9, 128, 255] {
-                            work.push((w, h, sent, pei, next_type, next_tr));
+                            for short_type in [1u8, 0] {
+                                for stuff in 0..3usize {
+                                    work.push((w, h, sent, pei, next_type, next_tr, short_type, stuff));
+                                }
+                            }
                         }
                     }
                 }
@@ -438,18 +444,21 @@ pub fn run(tier: Tier) -> Report {
         }
         let n_early = std::sync::atomic::AtomicU64::new(0);
         let own_refused = std::sync::atomic::AtomicU64::new(0);
-        work.par_iter().for_each(|&(w, h, sent, pei, next_type, next_tr)| {
+        work.par_iter().for_each(|&(w, h, sent, pei, next_type, next_tr, short_type, stuff)| {
             let ihdr = hdr(mode, w, h, 0, 250, 0, 0);
             let ipic = Pic { mbs: body(&ihdr, 0, 1), hdr: ihdr };
-            let shdr_ = hdr(mode, w, h, 1, 7, pei, 0);
+            let shdr_ = hdr(mode, w, h, short_type, 7, pei, 0);
             let mut mbs = body(&shdr_, 0, sent + pei);
             mbs.truncate(sent);
+            for _ in 0..stuff {
+                mbs.push(Mb::Stuffing);
+            }
             let short = Pic { mbs, hdr: shdr_ };
             let nhdr = hdr(mode, w, h, next_type, next_tr, 0, 0);
             let next = Pic { mbs: body(&nhdr, 1, 3), hdr: nhdr };
             let (bi, bs, bn) = (encode_bytes(&ipic), encode_bytes(&short), encode_bytes(&next));
             let concat: Vec<u8> = bs.iter().chain(bn.iter()).copied().collect();
-            let replay = json!({"kind": "stream", "options": 0, "init": [crate::bits::hex(&bi)], "concatenated": crate::bits::hex(&concat), "pictures": ["early-ended P", "next"], "note": format!("{w}x{h}: {sent} macroblocks sent, {pei} PEI bytes, next picture type {next_type} tr {next_tr}")});
+            let replay = json!({"kind": "stream", "options": 0, "init": [crate::bits::hex(&bi)], "concatenated": crate::bits::hex(&concat), "pictures": ["early-ended picture", "next"], "note": format!("{w}x{h} type-{short_type} picture: {sent} macroblocks sent followed by {stuff} stuffing codewords, {pei} PEI bytes, next picture type {next_type} tr {next_tr}")});
             let mut a = H263State::new(options_from_bits(0));
             let mut b = H263State::new(options_from_bits(0));
             let _ = decode_bytes(&mut a, &bi);
@@ -463,16 +472,16 @@ pub fn run(tier: Tier) -> Report {
             let mut rd = H263Reader::from_source(&concat[..]);
             match decode_with(&mut a, &mut rd) {
                 Outcome::Panic(p) => rep.violation(&panic_sig(&p), format!("early-ended picture before another one: panic {p}"), replay),
-                Outcome::Err(e) => rep.violation("C15/shared-reader-rejects-early-ended-picture", format!("{w}x{h} picture with {sent} macroblocks sent ({pei} PEI bytes): decodes from its own reader, fails with {e} when the next picture (tr {next_tr}) follows in the same reader"), replay),
+                Outcome::Err(e) => rep.violation("C15/shared-reader-rejects-early-ended-picture", format!("{w}x{h} type-{short_type} picture with {sent} macroblocks sent and {stuff} stuffing codewords behind them ({pei} PEI bytes): decodes from its own reader, fails with {e} when the next picture (tr {next_tr}) follows in the same reader"), replay),
                 Outcome::Ok => {
                     if last_snap(&a) != last_snap(&b) {
-                        rep.violation("C15/early-ended-picture-differs", format!("{w}x{h} picture with {sent} macroblocks sent: accepted from the shared reader, but differs from the same bytes in their own reader"), replay);
+                        rep.violation("C15/early-ended-picture-differs", format!("{w}x{h} type-{short_type} picture with {sent} macroblocks sent and {stuff} stuffing codewords: accepted from the shared reader, but differs from the same bytes in their own reader"), replay);
                         return;
                     }
                     let o2 = decode_with(&mut a, &mut rd);
                     let o2b = decode_bytes(&mut b, &bn);
                     if o2.is_ok() != o2b.is_ok() || (o2.is_ok() && last_snap(&a) != last_snap(&b)) {
-                        rep.violation("C15/picture-after-early-ended-picture", format!("{w}x{h}: the picture with {sent} macroblocks sent ({pei} PEI bytes) was accepted from the shared reader; the following picture (tr {next_tr}) then gives {} there and {} from its own reader", o2.short(), o2b.short()), replay);
+                        rep.violation("C15/picture-after-early-ended-picture", format!("{w}x{h}: the type-{short_type} picture with {sent} macroblocks sent and {stuff} stuffing codewords behind them ({pei} PEI bytes) was accepted from the shared reader; the following picture (tr {next_tr}) then gives {} there and {} from its own reader", o2.short(), o2b.short()), replay);
                     }
                 }
             }
